@@ -28,6 +28,11 @@ pub struct Sender<M: Message<Response = ()>> {
 }
 
 impl<M: Message<Response = ()>> Sender<M> {
+    #[cfg(hannibal_verif)]
+    pub(crate) fn verif_id(&self) -> ContextID {
+        self.id
+    }
+
     pub fn send(&self, msg: M) -> Pin<Box<dyn Future<Output = Result<()>> + Send>> {
         self.send_fn.send(msg)
     }
